@@ -20,7 +20,7 @@
   Where the crate has no hand-modelled counterpart as a separate definition (`zero`, the little-endian writers) the
   closed form is stated instead (`…_src_eq`).
 
-  Axioms: propext, Classical.choice, Quot.sound (Audit/C01.lean prints them).
+  Axioms: propext, Classical.choice, Quot.sound (the check's audit prints them per theorem).
 -/
 import CxVerif.Extracted.GlueMd
 import CxVerif.Proofs.GlueMd
@@ -368,5 +368,129 @@ theorem engine512_finish_src_eq_model (self : Engine512) :
   simp only [blocks512_fun, standard_padding_src_eq_model, next_write_src_eq_model, full_buffer_src_eq_model,
     len_be128_src]
   rfl
+
+
+/-! ### sha2/mod.rs: the six contexts defined by `digest!` (the public API), each tied to the hand model's generic
+    `Ctx256` / `Ctx512` at the algorithm descriptor (`Alg256` / `Alg512`: IV, output bits, output function) -/
+
+theorem Context512_mk_src_eq_model (e : Engine512) : Extracted.GlueMd.Context512.mk_src e = ⟨e⟩ := rfl
+theorem Context512_new_src_eq_model : Extracted.GlueMd.Context512.new_src = Ctx512.new Sha512 := rfl
+theorem Context512_update_mut_src_eq_model (self : Ctx512) (input : Bytes) :
+    Extracted.GlueMd.Context512.update_mut_src self input = self.update_mut input := by
+  unfold Extracted.GlueMd.Context512.update_mut_src Ctx512.update_mut
+  simp only [engine512_input_src_eq_model]; rfl
+theorem Context512_update_src_eq_model (self : Ctx512) (input : Bytes) :
+    Extracted.GlueMd.Context512.update_src self input = self.update input := by
+  unfold Extracted.GlueMd.Context512.update_src Ctx512.update
+  simp only [engine512_input_src_eq_model]; rfl
+theorem Context512_reset_src_eq_model (self : Ctx512) : Extracted.GlueMd.Context512.reset_src self = Ctx512.reset Sha512 self := rfl
+theorem Context512_finalize_src_eq_model (self : Ctx512) :
+    Extracted.GlueMd.Context512.finalize_src self = Ctx512.finalize Sha512 self := by
+  unfold Extracted.GlueMd.Context512.finalize_src Ctx512.finalize
+  simp only [engine512_finish_src_eq_model, eng512_output_512bits_at_src_eq_model]; rfl
+theorem Context512_finalize_reset_src_eq_model (self : Ctx512) :
+    Extracted.GlueMd.Context512.finalize_reset_src self = Ctx512.finalize_reset Sha512 self := by
+  unfold Extracted.GlueMd.Context512.finalize_reset_src Ctx512.finalize_reset
+  simp only [engine512_finish_src_eq_model, eng512_output_512bits_at_src_eq_model, Context512_reset_src_eq_model]; rfl
+
+theorem Context384_mk_src_eq_model (e : Engine512) : Extracted.GlueMd.Context384.mk_src e = ⟨e⟩ := rfl
+theorem Context384_new_src_eq_model : Extracted.GlueMd.Context384.new_src = Ctx512.new Sha384 := rfl
+theorem Context384_update_mut_src_eq_model (self : Ctx512) (input : Bytes) :
+    Extracted.GlueMd.Context384.update_mut_src self input = self.update_mut input := by
+  unfold Extracted.GlueMd.Context384.update_mut_src Ctx512.update_mut
+  simp only [engine512_input_src_eq_model]; rfl
+theorem Context384_update_src_eq_model (self : Ctx512) (input : Bytes) :
+    Extracted.GlueMd.Context384.update_src self input = self.update input := by
+  unfold Extracted.GlueMd.Context384.update_src Ctx512.update
+  simp only [engine512_input_src_eq_model]; rfl
+theorem Context384_reset_src_eq_model (self : Ctx512) : Extracted.GlueMd.Context384.reset_src self = Ctx512.reset Sha384 self := rfl
+theorem Context384_finalize_src_eq_model (self : Ctx512) :
+    Extracted.GlueMd.Context384.finalize_src self = Ctx512.finalize Sha384 self := by
+  unfold Extracted.GlueMd.Context384.finalize_src Ctx512.finalize
+  simp only [engine512_finish_src_eq_model, eng512_output_384bits_at_src_eq_model]; rfl
+theorem Context384_finalize_reset_src_eq_model (self : Ctx512) :
+    Extracted.GlueMd.Context384.finalize_reset_src self = Ctx512.finalize_reset Sha384 self := by
+  unfold Extracted.GlueMd.Context384.finalize_reset_src Ctx512.finalize_reset
+  simp only [engine512_finish_src_eq_model, eng512_output_384bits_at_src_eq_model, Context384_reset_src_eq_model]; rfl
+
+theorem Context512_256_mk_src_eq_model (e : Engine512) : Extracted.GlueMd.Context512_256.mk_src e = ⟨e⟩ := rfl
+theorem Context512_256_new_src_eq_model : Extracted.GlueMd.Context512_256.new_src = Ctx512.new Sha512Trunc256 := rfl
+theorem Context512_256_update_mut_src_eq_model (self : Ctx512) (input : Bytes) :
+    Extracted.GlueMd.Context512_256.update_mut_src self input = self.update_mut input := by
+  unfold Extracted.GlueMd.Context512_256.update_mut_src Ctx512.update_mut
+  simp only [engine512_input_src_eq_model]; rfl
+theorem Context512_256_update_src_eq_model (self : Ctx512) (input : Bytes) :
+    Extracted.GlueMd.Context512_256.update_src self input = self.update input := by
+  unfold Extracted.GlueMd.Context512_256.update_src Ctx512.update
+  simp only [engine512_input_src_eq_model]; rfl
+theorem Context512_256_reset_src_eq_model (self : Ctx512) : Extracted.GlueMd.Context512_256.reset_src self = Ctx512.reset Sha512Trunc256 self := rfl
+theorem Context512_256_finalize_src_eq_model (self : Ctx512) :
+    Extracted.GlueMd.Context512_256.finalize_src self = Ctx512.finalize Sha512Trunc256 self := by
+  unfold Extracted.GlueMd.Context512_256.finalize_src Ctx512.finalize
+  simp only [engine512_finish_src_eq_model, eng512_output_256bits_at_src_eq_model]; rfl
+theorem Context512_256_finalize_reset_src_eq_model (self : Ctx512) :
+    Extracted.GlueMd.Context512_256.finalize_reset_src self = Ctx512.finalize_reset Sha512Trunc256 self := by
+  unfold Extracted.GlueMd.Context512_256.finalize_reset_src Ctx512.finalize_reset
+  simp only [engine512_finish_src_eq_model, eng512_output_256bits_at_src_eq_model, Context512_256_reset_src_eq_model]; rfl
+
+theorem Context512_224_mk_src_eq_model (e : Engine512) : Extracted.GlueMd.Context512_224.mk_src e = ⟨e⟩ := rfl
+theorem Context512_224_new_src_eq_model : Extracted.GlueMd.Context512_224.new_src = Ctx512.new Sha512Trunc224 := rfl
+theorem Context512_224_update_mut_src_eq_model (self : Ctx512) (input : Bytes) :
+    Extracted.GlueMd.Context512_224.update_mut_src self input = self.update_mut input := by
+  unfold Extracted.GlueMd.Context512_224.update_mut_src Ctx512.update_mut
+  simp only [engine512_input_src_eq_model]; rfl
+theorem Context512_224_update_src_eq_model (self : Ctx512) (input : Bytes) :
+    Extracted.GlueMd.Context512_224.update_src self input = self.update input := by
+  unfold Extracted.GlueMd.Context512_224.update_src Ctx512.update
+  simp only [engine512_input_src_eq_model]; rfl
+theorem Context512_224_reset_src_eq_model (self : Ctx512) : Extracted.GlueMd.Context512_224.reset_src self = Ctx512.reset Sha512Trunc224 self := rfl
+theorem Context512_224_finalize_src_eq_model (self : Ctx512) :
+    Extracted.GlueMd.Context512_224.finalize_src self = Ctx512.finalize Sha512Trunc224 self := by
+  unfold Extracted.GlueMd.Context512_224.finalize_src Ctx512.finalize
+  simp only [engine512_finish_src_eq_model, eng512_output_224bits_at_src_eq_model]; rfl
+theorem Context512_224_finalize_reset_src_eq_model (self : Ctx512) :
+    Extracted.GlueMd.Context512_224.finalize_reset_src self = Ctx512.finalize_reset Sha512Trunc224 self := by
+  unfold Extracted.GlueMd.Context512_224.finalize_reset_src Ctx512.finalize_reset
+  simp only [engine512_finish_src_eq_model, eng512_output_224bits_at_src_eq_model, Context512_224_reset_src_eq_model]; rfl
+
+theorem Context256_mk_src_eq_model (e : Engine256) : Extracted.GlueMd.Context256.mk_src e = ⟨e⟩ := rfl
+theorem Context256_new_src_eq_model : Extracted.GlueMd.Context256.new_src = Ctx256.new Sha256 := rfl
+theorem Context256_update_mut_src_eq_model (self : Ctx256) (input : Bytes) :
+    Extracted.GlueMd.Context256.update_mut_src self input = self.update_mut input := by
+  unfold Extracted.GlueMd.Context256.update_mut_src Ctx256.update_mut
+  simp only [engine256_input_src_eq_model]; rfl
+theorem Context256_update_src_eq_model (self : Ctx256) (input : Bytes) :
+    Extracted.GlueMd.Context256.update_src self input = self.update input := by
+  unfold Extracted.GlueMd.Context256.update_src Ctx256.update
+  simp only [engine256_input_src_eq_model]; rfl
+theorem Context256_reset_src_eq_model (self : Ctx256) : Extracted.GlueMd.Context256.reset_src self = Ctx256.reset Sha256 self := rfl
+theorem Context256_finalize_src_eq_model (self : Ctx256) :
+    Extracted.GlueMd.Context256.finalize_src self = Ctx256.finalize Sha256 self := by
+  unfold Extracted.GlueMd.Context256.finalize_src Ctx256.finalize
+  simp only [engine256_finish_src_eq_model, eng256_output_256bits_at_src_eq_model]; rfl
+theorem Context256_finalize_reset_src_eq_model (self : Ctx256) :
+    Extracted.GlueMd.Context256.finalize_reset_src self = Ctx256.finalize_reset Sha256 self := by
+  unfold Extracted.GlueMd.Context256.finalize_reset_src Ctx256.finalize_reset
+  simp only [engine256_finish_src_eq_model, eng256_output_256bits_at_src_eq_model, Context256_reset_src_eq_model]; rfl
+
+theorem Context224_mk_src_eq_model (e : Engine256) : Extracted.GlueMd.Context224.mk_src e = ⟨e⟩ := rfl
+theorem Context224_new_src_eq_model : Extracted.GlueMd.Context224.new_src = Ctx256.new Sha224 := rfl
+theorem Context224_update_mut_src_eq_model (self : Ctx256) (input : Bytes) :
+    Extracted.GlueMd.Context224.update_mut_src self input = self.update_mut input := by
+  unfold Extracted.GlueMd.Context224.update_mut_src Ctx256.update_mut
+  simp only [engine256_input_src_eq_model]; rfl
+theorem Context224_update_src_eq_model (self : Ctx256) (input : Bytes) :
+    Extracted.GlueMd.Context224.update_src self input = self.update input := by
+  unfold Extracted.GlueMd.Context224.update_src Ctx256.update
+  simp only [engine256_input_src_eq_model]; rfl
+theorem Context224_reset_src_eq_model (self : Ctx256) : Extracted.GlueMd.Context224.reset_src self = Ctx256.reset Sha224 self := rfl
+theorem Context224_finalize_src_eq_model (self : Ctx256) :
+    Extracted.GlueMd.Context224.finalize_src self = Ctx256.finalize Sha224 self := by
+  unfold Extracted.GlueMd.Context224.finalize_src Ctx256.finalize
+  simp only [engine256_finish_src_eq_model, eng256_output_224bits_at_src_eq_model]; rfl
+theorem Context224_finalize_reset_src_eq_model (self : Ctx256) :
+    Extracted.GlueMd.Context224.finalize_reset_src self = Ctx256.finalize_reset Sha224 self := by
+  unfold Extracted.GlueMd.Context224.finalize_reset_src Ctx256.finalize_reset
+  simp only [engine256_finish_src_eq_model, eng256_output_224bits_at_src_eq_model, Context224_reset_src_eq_model]; rfl
 
 end Cx.Props.C01.GlueTieMd
